@@ -57,7 +57,7 @@ func Spec(basePath string, b []byte, next http.Handler, opts ...SpecOption) http
 		basePath = "/"
 	}
 	o := specOptionsWithDefaults(opts)
-	pth := path.Join(basePath, o.Path, o.Document)
+	pth := path.Join("/", basePath, o.Path, o.Document)
 
 	return http.HandlerFunc(func(rw http.ResponseWriter, r *http.Request) {
 		if path.Clean(r.URL.Path) == pth {
